@@ -183,6 +183,11 @@ class ViewpointReorienter:
             quads["top"].get_common_point(quads["back"], quads["left"]),
         ]
 
+        # the sorted points must be the original eight, each of them taken exactly once
+        for original in operation.point_array:
+            if sum(1 for point in sorted_points if f.norm(point - original) < constants.TOL) != 1:
+                raise DegenerateGeometryError("Faces are too dubiously aligned to sort the points from this viewpoint!")
+
         for i, point in enumerate(operation.bottom_face.points):
             point.position = sorted_points[i]
 
